@@ -269,7 +269,7 @@ class Array {
     }
 
     json DecodeJson() const {
-        json j{};
+        json j = json::array();
 
         for (const auto& x: GetData()) {
             j.push_back(x.DecodeJson());
@@ -397,7 +397,7 @@ class DynamicArray {
     }
 
     json DecodeJson() const {
-        json j{};
+        json j = json::array();
         for (auto x: GetData()) {
             j.push_back(x.DecodeJson());
         }
